@@ -53,7 +53,8 @@ def rawsOf (omitEmpty : Bool) (mas : Nat) (toks : List String) : Option (List Ra
     else none
 
 def provCfgOf (kv : List (String × String)) : ProvCfg :=
-  { passes := (getN? kv "pas").getD 1, limit := (getN? kv "lim").getD 0,
+  -- pas=d: `passes` is not written at all: the provider's default, 0 = unlimited
+  { passes := if getS kv "pas" == "d" then 0 else (getN? kv "pas").getD 1, limit := (getN? kv "lim").getD 0,
     chosen := (splitList (getS kv "cc")).map dec, coe := getS kv "coe" == "1" }
 
 /-- the shared client pool's effective size: `sc` clients when `sc > 0` (the harness enables the pool), `sce=1` enables
@@ -62,6 +63,18 @@ def clientsOf (kv : List (String × String)) : Nat :=
   let sc : Int := (getS kv "sc").toInt?.getD 0
   effClients (sc > 0 || getS kv "sce" == "1") sc
 
+/-- the preprocessor field of a call: `u` = `[next]`, `uu` = two preprocessors (`[next]` first: the first definition of a
+variable wins), `uL` = `[last]`, `u<d>` = `[<d>]`, `um<d>` = `[-<d>]`; anything else: no preprocessor -/
+def parsePre (f : String) : Bool × Idx :=
+  let cs := f.toList
+  let num := fun (ds : List Char) => ds.foldl (fun a d => a * 10 + (d.toNat - 48)) 0
+  if f == "u" || f == "uu" then (true, .next)
+  else if f == "uL" then (true, .last)
+  else match cs with
+    | 'u' :: 'm' :: ds => if !ds.isEmpty && ds.all Char.isDigit then (true, .neg (num ds)) else (false, .next)
+    | 'u' :: ds => if !ds.isEmpty && ds.all Char.isDigit then (true, .fixed (num ds)) else (false, .next)
+    | _ => (false, .next)
+
 def parseCall (c : String) : CallDef :=
   let p := c.splitOn "|"
   { name := nth p 0, call := dec (nth p 1),
@@ -69,7 +82,8 @@ def parseCall (c : String) : CallDef :=
     payload := (parsePairs (nth p 3)).map fun (k, v) =>
       let (kind, body) := cut v '.'
       (dec k, kind, parseTmpl (dec body)),
-    pre := nth p 4 == "u",
+    pre := (parsePre (nth p 4)).1,
+    idx := (parsePre (nth p 4)).2,
     assert := if (nth p 5).startsWith "a" then (String.ofList ((nth p 5).toList.drop 1)).toNat?.getD 0 else 0 }
 
 /-- `sleep<ms>`: the scenario's `sleep(ms)` pseudo request — time only, nothing on the wire -/
@@ -97,7 +111,8 @@ def parseCfg (kv : List (String × String)) : Cfg :=
     g := dec (getS kv "g"),
     -- the provider's registry keeps the LAST definition of a name (`C20_registry`)
     calls := registry ((splitList (getS kv "calls") ";").map parseCall),
-    scns := (splitList (getS kv "scns") ";").map parseScn }
+    scns := (splitList (getS kv "scns") ";").map parseScn,
+    gn := if getS kv "gn" == "" then none else some (getS kv "gn") }
 
 def parseSched (s : String) : List Nat := s.toList.map fun c => c.toNat - 48
 
@@ -187,26 +202,52 @@ def handleCore : Handler := fun input impl =>
     if getS kv "run" == "engine" then
       ("-", judgeEngineScen c ((getN? kv "n").getD 1) ((getN? kv "shots").getD 0) impl)
     else
-      let sched := parseSched (getS kv "sched")
+      let asked := parseSched (getS kv "sched")
+      -- the scenario provider's own passes / limit (`spas`, `slim`): how many of the shots asked for it delivers
+      let delivered := (scenRun (ammoList c).length ((getN? kv "spas").getD 0) ((getN? kv "slim").getD 0) asked.length 0).length
+      let outOfAmmo := delivered < asked.length
+      let sched := asked.take delivered
       match expectedSched c sched 0 [] [] with
       | none => ("-", "skip:outside-modelled-fragment")
       | some exp =>
-        let verdict := judgeTrace exp impl
+        let verdict := judgeFeedTrace exp outOfAmmo "" impl
         let modelObs := match runSched .copy c sched 0 (initWorld c) [] with
-          | .inl (some tr) => traceText tr
+          | .inl (some tr) => traceText tr ++ (if outOfAmmo then (if tr.isEmpty then "out-of-ammo" else ";out-of-ammo") else "")
           | _ => "-"
         if verdict == "ok" then (modelObs, verdict) else
         -- diagnostic: does the implementation behave like the in-place model (the code as written)?
         let inPlace := match runSched .inPlace c sched 0 (initWorld c) [] with
-          | .inl (some tr) => traceText tr
+          | .inl (some tr) => traceText tr ++ (if outOfAmmo then (if tr.isEmpty then "out-of-ammo" else ";out-of-ammo") else "")
           | _ => "-"
         (modelObs, verdict ++ (if inPlace == impl then " [observation equals the in-place (shared map) model]" else ""))
   | _ => ("-", "fail:driver:unknown mode")
 
+/-- the gun's target option as the harness writes it (`tf=`: the same endpoint in the forms gRPC accepts; `b` / `c`: a
+host without a port) and the text under which the reflection endpoint (same host, port `rp`) can be dialled -/
+def targetForm (tf port : String) : String :=
+  match tf with
+  | "1" => "localhost:" ++ port
+  | "2" => "dns:///127.0.0.1:" ++ port
+  | "3" => "passthrough:///127.0.0.1:" ++ port
+  | "6" => "[::1]:" ++ port
+  | "b" => "127.0.0.1"
+  | "c" => "[::1]"
+  | _ => "127.0.0.1:" ++ port
+
+def reflForm (tf port : String) : String :=
+  match tf with
+  | "b" => "127.0.0.1:" ++ port
+  | "c" => "[::1]:" ++ port
+  | _ => targetForm tf port
+
+/-- the model's `replacePort` sends the reflection request of a gun whose target is written in form `tf` to the reflection
+endpoint (checked for every generated form by `example`s in Props/C20.lean) -/
+def reflReachable (tf : String) : Bool := replacePort (targetForm tf "1111") 2222 == reflForm tf "2222"
+
 /-- the model's count of calls that reach the separate reflection endpoint: the pool of `n` instances bound with a shared
 client pool of `sc`, every entry fired by the scheduled instance through that instance's stub (`stubAddr`) -/
 def modelStray (kv : List (String × String)) : Nat :=
-  let net : Net := { target := "127.0.0.1:1", reflectPort := 2 }
+  let net : Net := { target := targetForm (getS kv "tf") "1", reflectPort := 2 }
   let n := (getN? kv "n").getD 1
   let sc := if getS kv "mode" == "json" then clientsOf kv else 0
   let es := (splitList (getS kv "e") ";").map parseEntry
@@ -218,6 +259,7 @@ target, `C20_target`), the Spec demands 0 -/
 def handleNet : Handler := fun input impl =>
   let kv := parseKV input
   let (modelObs, verdict) := handleCore input impl
+  if getS kv "rp" == "1" && !(reflReachable (getS kv "tf")) then ("-", "skip:model-sends-reflection-elsewhere") else
   if getS kv "rp" == "1" && getS kv "mode" != "table" && !(impl.startsWith "ENV") then
     let m := if modelObs == "-" then "-" else modelObs ++ " stray=" ++ toString (modelStray kv)
     match judgeStray impl with
